@@ -103,6 +103,7 @@ def run(ctx):
     mism = []
     model_ok = built
     ngrad = 0
+    nsm = 0
     if built:
         try:
             exprs, refs = [], []
@@ -159,6 +160,33 @@ def run(ctx):
                     exprs.append('run_wavg %s %s' % (fr(e['weights']), fr(e['costs'])))
                     refs.append(('odimo', o, e))
             vals = ctx.coq_eval_sharded('mix', ['Plinio.Model.Masks', 'Plinio.Model.CostGrad'], '', exprs, shard=200) if exprs else []
+            # d cost / d alpha THROUGH the softmax: autograd vs the dual-number quotient rule of the model (run_sm_grad);
+            # weights w_k = exp((alpha_k - max)/T) and the derivative of exp at alpha_j, gp = w_j / T, are computed by the harness
+            sexprs, srefs = [], []
+            for kind, o, e in refs:
+                if kind == 'odimo' or e.get('dcost_dalpha') is None:
+                    continue
+                if kind == 'sn':
+                    cols, gcols, cj, div = [e['alpha']], [e['dcost_dalpha']], e['branch_cost'], 1
+                else:
+                    cols, gcols = e['alpha'], e['dcost_dalpha']
+                    cj = [sum(ti * row[j] for ti, row in zip(e['thin'], e['c'])) for j in range(len(e['thw']))]
+                    div = len(cols)
+                for col, gcol in zip(cols, gcols):
+                    mx = max(col)
+                    w = [Fraction(math.exp((a - mx) / e['T'])) for a in col]
+                    for j in range(len(col)):
+                        sexprs.append('run_sm_grad %s %s %s %s' % (coq(w), fr(cj), coq(Nat(j)), coq(w[j] / Fraction(e['T']))))
+                        srefs.append((kind, o, e, j, gcol[j], div, max(abs(v) for v in gcol)))
+            svals = ctx.coq_eval_sharded('smgrad', ['Plinio.Model.Masks', 'Plinio.Model.CostGrad'], '', sexprs, shard=400) if sexprs else []
+            for (kind, o, e, j, gi, div, scale), v in zip(srefs, svals):
+                mult = sum(1 for (k2, o2, e2) in refs if o2 is o and k2 == kind and e2.get('spec') == e.get('spec') and e2.get('comb', e2.get('layer')) == e.get('comb', e.get('layer')))
+                mv = Fraction(v[0], v[1]) * mult / div
+                ctx.corr += 1
+                nsm += 1
+                if abs(Fraction(gi) - mv) > Fraction(2.0 ** -14) * max(1, abs(mv), Fraction(scale)):
+                    mism.append(({'kind': kind, 'seed': o['seed'], 'model': o['model'], 'spec': e.get('spec'), 'layer': e.get('comb', e.get('layer'))},
+                                 {'what': 'd cost / d alpha_j through the softmax', 'j': j, 'impl_autograd': gi, 'model_dual': float(mv)}))
             tot = {}
             for (kind, o, e), v in zip(refs, vals):
                 mv = Fraction(v[0], v[1])
@@ -197,11 +225,12 @@ def run(ctx):
             ctx.notes.append('model evaluation failed: ' + str(ex)[-1500:])
     ctx.extra['model_impl_mismatches'] = len(mism)
     ctx.extra['gradient_elements_compared'] = ngrad
+    ctx.extra['softmax_gradient_elements_compared'] = nsm
     ctx.assumptions += ['differentiability is observed through torch.autograd, not proved; the model derivative is forward-mode AD over Q with torch.abs\' = sign (0 at 0) and straight-through estimators = 1',
                         'PIT cost is evaluated in float64 for the comparison with the model (2^-20 relative), in float32 (library default) for the oracle sentences',
                         'MPS/SuperNet/ODiMO: branch costs and sampled coefficients are inputs of the model (read from the implementation); exp of the ODiMO softmax is computed by the harness']
 
-    if not ctx.violations and not ctx.known_printed:
+    if not ctx.violations:   # a printed KNOWN-FINDING must not hide a broken proof / model / correspondence
         if not built:
             ctx.violation('proof-broken', {'theorems': [o[0] for o in ctx.obligations if not o[1]], 'log': getattr(ctx, 'broken_log', '')[-3000:]}, 'Props/C12.v no longer checks', no_input=True)
         elif not model_ok:
